@@ -899,7 +899,7 @@ def run(ctx):
     negative_controls(ctx)
 
     # 2. design: bounded-exhaustive configurations; the same runs emit the cases to replay
-    plan = ([("MC_DpkgVersion_parts.cfg", 16), ("MC_DpkgVersion_full.cfg", 32), ("MC_DpkgVersion_triples.cfg", 1)]
+    plan = ([("MC_DpkgVersion_parts.cfg", 24), ("MC_DpkgVersion_full.cfg", 40), ("MC_DpkgVersion_triples.cfg", 1)]
             if quick else
             [("MC_DpkgVersion_parts_thorough.cfg", 300), ("MC_DpkgVersion_full_thorough.cfg", 150),
              ("MC_DpkgVersion_triples_thorough.cfg", 1)])
@@ -923,7 +923,7 @@ def run(ctx):
              cases_per_sign={str(k): v for k, v in per_sign.items()}, pair_visits=n)
 
     # 2b. object layer: closed state space of two mutable objects; assignments replayed
-    name, stride = ("MC_DpkgVersion_obj.cfg", 6) if quick else ("MC_DpkgVersion_obj_thorough.cfg", 90)
+    name, stride = ("MC_DpkgVersion_obj.cfg", 10) if quick else ("MC_DpkgVersion_obj_thorough.cfg", 90)
     offset = rng.randrange(stride)
     r, muts, ops = design_run(ctx, name, stride, offset, module="DpkgVersionObj", tag="MUT")
     n, per_how = replay_muts(ctx, muts, ops, nconc)
@@ -933,7 +933,7 @@ def run(ctx):
     ctx.extra["behaviours_replayed"] = replayed
 
     # 3. code -> spec: recorded comparisons validated by TLC on the concrete code points
-    ntr = 600 if quick else 8000
+    ntr = 500 if quick else 6000
     traces = make_traces(rng, ntr)
     nev = sum(len(t["events"]) for t in traces)
     bad, nrej = validate(ctx, traces)
